@@ -480,6 +480,14 @@ func (k Keeper) MakeConsumerGenesis(
 		// set the counterparty connection ID
 		counterpartyConnectionId = connectionEnd.Counterparty.ConnectionId
 
+		// a client can be the CCV client of a single consumer chain
+		if otherConsumerId, found := k.GetClientIdToConsumerId(ctx, clientId); found && otherConsumerId != consumerId {
+			return gen, errorsmod.Wrapf(types.ErrInvalidConsumerClient,
+				"client(%s) associated with connection(%s) is already the CCV client of consumer chain %s",
+				clientId, initializationRecord.ConnectionId, otherConsumerId,
+			)
+		}
+
 		k.SetConsumerClientId(ctx, consumerId, clientId)
 
 		// Set minimum height for equivocation evidence from this consumer chain
